@@ -34,6 +34,7 @@ TYPES = {
     "list_any": List[Any],
     "dict_any": Dict[str, Any],
     "union_int_list": Union[int, List[int]],
+    "union_int_float": Union[int, float],
     "path_fr": Path_fr,
     "path_fc": Path_fc,
     "path_dw": Path_dw,
